@@ -10,6 +10,28 @@ VERIF = Path(__file__).resolve().parent.parent
 ALL = [f"C{i:02d}" for i in range(1, 21)]
 
 CHECKS = {
+    "C01": dict(
+        category="exploration",
+        technique="TLA+ program generators (ProgGen.tla, Closing.tla) enumerated by TLC; every format_code run recorded and validated by TLC against PipelineTrace.tla (FinalObs) with an execution oracle",
+        text=("Programs are the states of ProgGen.tla (typed block grammar; every program well typed by construction) and the "
+              "repository's example snippets under the closing environments of Closing.tla, kept when the original terminates "
+              "normally twice with identical output. Each (program, option vector) is formatted under the recorder and TLC "
+              "validates the trace: the observation (termination class + stdout of an isolated execution) of the returned "
+              "program equals that of the input. Failures are localised to the first stage after which the observation differs "
+              "(judged after the import stage when only an import is missing). Exploration: the program space is bounded and sampled."),
+        note="Trusted: the execution sandbox, TLC, the class filter (no introspection / time / randomness / IO). Not a proof of equivalence.",
+        design_ref="DESIGN.md sections 3.9, 5 (C01)",
+    ),
+    "C02": dict(
+        category="exploration",
+        technique="every rule x every program of the C01 space; each firing is a single-step trace validated by TLC against PipelineTrace.tla (KeepValid, FinalObs) with an execution oracle",
+        text=("The rule catalogue is read from main.py on every run; every rule is applied in isolation (fresh parse caches) to every "
+              "program of the C01 space; every firing is a single-step trace  Enter; Rule(r); Return  validated by TLC. A result that "
+              "only lacks an import the pipeline adds afterwards is observed after add_missing_imports. Evidence lists per-rule firing "
+              "counts and the rules that never fired (no claim for those)."),
+        note="Trusted: as C01. Rules for numpy / pandas code are not exercised (numpy and pandas are not installed for the interpreter that runs pyrefact).",
+        design_ref="DESIGN.md section 5 (C02)",
+    ),
     "C03": dict(
         category="model_checking",
         technique="TLC trace validation of recorded format_code runs against PipelineTrace.tla (KeepValid per stage, FinalValid); isolated rules and sub/subn on corpora; FileWrite.tla write-guard model replayed into format_file",
@@ -32,6 +54,25 @@ CHECKS = {
         note="Trusted: TLC, the wall-clock limit as the meaning of 'bounded time', the recording wrappers. Input space is a cover, not exhaustive.",
         design_ref="DESIGN.md sections 3.2, 5 (C04)",
     ),
+    "C07": dict(
+        category="model_checking",
+        technique="TLA+ generator of module surfaces (Surface.tla) enumerated by TLC; safe-mode runs recorded and validated by TLC against PipelineTrace.tla (FinalSurface)",
+        text=("Surface.tla enumerates modules of up to two definitions over 12 binding kinds x naming styles x used/unused, with duplicate and "
+              "decorator flags; every module (plus Shapes cases, repository snippets, stdlib modules) is formatted with safe=True under the "
+              "recorder and TLC checks that every name of the input's surface is still bound in the output; the stage that dropped a name is reported."),
+        note="Trusted: the surface projection (checked against the renderer on every case), TLC. Bounded generator + corpora.",
+        design_ref="DESIGN.md sections 3.8, 5 (C07)",
+    ),
+    "C09": dict(
+        category="model_checking",
+        technique="TLC validation of recorded histories x, f(x), .., f^6(x) against Repeat.tla; Orient.tla (antisymmetry of the swap heuristic) model-checked and replayed; Pipeline.tla design facts",
+        text=("Histories of six successive applications of format_code (three option vectors; snippets, Shapes cases, stdlib modules) and "
+              "format_files(max_passes=5) + one more pass are validated by TLC: a fixed point within MAX_MODULE_PASSES applications, "
+              "stability afterwards, no cycle. Orient.tla proves antisymmetry of the orientation heuristic on all settled feature vectors "
+              "and every vector is replayed into the real predicate. Pipeline.tla shows what the loop structure alone does not guarantee."),
+        note="Trusted: TLC; convergence is an empirical property of the real rule set, so the claim is over the explored inputs.",
+        design_ref="DESIGN.md sections 3.3, 5 (C09)",
+    ),
     "C10": dict(
         category="model_checking",
         technique="TLA+ model (Scheduler.tla) checked exhaustively by TLC; every TLC scenario replayed into processing.fix/chain; TLC trace validation of recorded real scheduler calls",
@@ -44,6 +85,16 @@ CHECKS = {
         note=("Trusted: TLC, the rendering of abstract units to text (checked by token round trip), CPython's parser as "
               "the validity oracle. Bounds are stated in evidence (tlc_runs)."),
         design_ref="DESIGN.md sections 3.1, 5 (C10)",
+    ),
+    "C11": dict(
+        category="model_checking",
+        technique="TLA+ input cover (Layout.tla) enumerated by TLC; clause KeepAst of PipelineTrace.tla validated by TLC on every layout stage event; layout stages replayed in isolation",
+        text=("Layout.tla enumerates literal kinds x content features (tabs, trailing blanks, blank-line runs, long lines, continuations, "
+              "hashes, deep indentation) x placements x line lengths; each module is formatted under the recorder and TLC checks on every "
+              "layout stage event that the position-free tree (docstring whitespace normalised) is unchanged; every layout stage is also "
+              "applied in isolation and the list of string constants compared. Four genuine defect classes are listed as known findings."),
+        note="Trusted: CPython's parser, TLC, the definition of 'layout stage' (list in harness/ptrace.py).",
+        design_ref="DESIGN.md sections 3.9, 5 (C11)",
     ),
     "C12": dict(
         category="model_checking",
@@ -69,6 +120,16 @@ CHECKS = {
         note=("Trusted: TLC, CPython as the ground truth for the TLA+ semantics (checked on every case, exit 2 on disagreement), "
               "the execution sandbox. Cases the TLA+ semantics marks out-of-model are decided by CPython directly."),
         design_ref="DESIGN.md sections 3.7, 5 (C15)",
+    ),
+    "C20": dict(
+        category="model_checking",
+        technique="systematic line annotation of rule-firing programs; recorded runs validated by TLC against PipelineTrace.tla (FinalIgnored, SkipIsIdentity); Scheduler.tla scenarios with ignored lines replayed",
+        text=("Every annotatable physical line of repository snippets and Shapes cases gets the documented ignore comment (one line at a "
+              "time, pairs in thorough); TLC checks that the annotated lines occur verbatim and in order in the output and names the stage "
+              "and back-end that touched one; skip_file comments are checked through format_code, format_file (bytes, mtime) and "
+              "--from-stdin; Scheduler.tla scenarios with ignored lines are replayed through fix / chain."),
+        note="Trusted: TLC, the tokenizer-based choice of annotatable lines. Only the documented comment spelling is asserted.",
+        design_ref="DESIGN.md section 5 (C20)",
     ),
 }
 
